@@ -78,23 +78,35 @@ def _install():
 
     Q.put, Q.get = put, get
 
+    # The batch buffer (SingleLane) is read LOCK-FREE by the collector (`buffer.qsize()`, `buffer.full()`), so its events
+    # must be logged at the very moment the deque changes: `SingleLane.get` still calls `notify()` (whose `_is_owned()`
+    # try-lock is a scheduling point) between `popleft()` and its return - an event logged after the return could come
+    # after the collector has already seen the shorter buffer.  The deque of every SingleLane is replaced by a subclass
+    # that logs inside `append` / `popleft` (same thread, mutex held, nothing in between).
+    import collections
+    import threading
+
+    class LogDeque(collections.deque):
+        def append(self, item):
+            collections.deque.append(self, item)
+            if detsched.current() is not None and _wk():
+                coll = '_build_input_batches' in threading.current_thread().name
+                detsched.emit('BufPut', w=_wk(), id=ident(item), coll=coll)
+
+        def popleft(self):
+            z = collections.deque.popleft(self)
+            if detsched.current() is not None and _wk():
+                detsched.emit('BufGet', w=_wk(), id=ident(z), t=_ticks())
+            return z
+
     SL = _queues.SingleLane
-    sput, sget = SL.put, SL.get
+    sinit = SL.__init__
 
-    def slput(self, item, block=True, timeout=None):
-        sput(self, item, block, timeout)
-        if detsched.current() is not None and _wk():
-            import threading
-            coll = '_build_input_batches' in threading.current_thread().name
-            detsched.emit('BufPut', w=_wk(), id=ident(item), coll=coll)
+    def slinit(self, *a, **k):
+        sinit(self, *a, **k)
+        self._queue = LogDeque(self._queue)
 
-    def slget(self, block=True, timeout=None):
-        z = sget(self, block, timeout)
-        if detsched.current() is not None and _wk():
-            detsched.emit('BufGet', w=_wk(), id=ident(z), t=_ticks())
-        return z
-
-    SL.put, SL.get = slput, slget
+    SL.__init__ = slinit
 
 
 def _make_scenario(sc):
